@@ -47,6 +47,7 @@ func (a *LabelFormatPlanner) Process(ctx *shared.PlannerContext,
 			for _, fn := range labelFns {
 				entry.Labels = fn(entry.Labels)
 			}
+			entry.Fingerprint = fingerprint(entry.Labels)
 			return nil
 		},
 		OnAfterEntriesSlice: func(entries []shared.LogEntry, c chan []shared.LogEntry) error {
